@@ -112,7 +112,9 @@ func judge(c *core.Case, mc *muCase, d *driver, log []event) {
 				wantTyp = "unavailable"
 			}
 			for i, p := range pres {
-				if p.self && p.addr == r.addr && p.typ == wantTyp && p.t < r.tRet && !processedBefore(p.t, r.tCall) {
+				// (a Leave may rightly return because the occupant is out already: any
+				// unavailable self-presence sent before the return will do)
+				if p.self && p.addr == r.addr && p.typ == wantTyp && p.t < r.tRet && (kind == "leave" || !processedBefore(p.t, r.tCall)) {
 					r.candidates = append(r.candidates, i)
 				}
 			}
@@ -237,6 +239,14 @@ func judge(c *core.Case, mc *muCase, d *driver, log []event) {
 				want = "true"
 			case afterHi:
 				want = "false"
+			}
+			// A Leave that came back with an error other than the context's leaves
+			// the state open: no unavailable presence was processed, yet Leave is
+			// documented (and tested by the package) to end membership.
+			for _, r := range perAddr[a] {
+				if r.op == "leave" && (r.err == "stanza" || r.err == "other") && r.tRet > lo && r.tRet < b.tSend && want == "true" {
+					want = ""
+				}
 			}
 			// two successful joins whose order is not fixed by a barrier: leave it
 			if nOK > 1 {
